@@ -24,5 +24,20 @@ CHECKS = {
         note="Flows are bounded so that prod(f_e+1) <= 10^4, below the library's default search bound, so 'unrealizable within bounds' coincides with 'unrealizable'.",
         technique="property testing against the Petri-net definitions with exhaustive reachability as reference",
     ),
+    "C03": dict(
+        text="Validity predicate over every reaction proposed by SynReactor on generated (template, substrate, direction, strategy) tuples built from the corpus (own substrate, same-centre-class substrate, arbitrary substrate; centre and full-ITS templates; explicit and implicit hydrogen modes): substrate side preserved (RDKit key on the string and labelled isomorphism on the glued graph), element/H/charge conservation by an own counter, and change signature of the glued graph isomorphic to the template's. Thorough adds every own pair x 2 kinds x 2 directions x 3 strategies.",
+        note="Reactor mode is matched to the template's hydrogen style (input precondition); conservation is asserted only for templates whose reaction is itself balanced incl. H and charge; results above 400 outputs per case are sampled (first 400).",
+        technique="property-based testing with a validity-predicate oracle (RDKit + own graph matcher)",
+    ),
+    "C04": dict(
+        text="Round trip extract-template -> apply for every eligible corpus reaction (exhaustive over the corpus: both template kinds, both directions, 1 or 3 strategies) and for Hypothesis-generated rewritings of them (atom-map renumbering, atom re-ordering incl. ring-closure digits, fragment shuffle): the reaction's own RDKit key must be among the keys of the results.",
+        note="Preconditions decided from the input: hydrogen style not mixed; centre templates only when nothing changes outside the centre; strategy comp only when the substrate has no more components than the pattern; embedding count within the documented threshold. One recorded finding (a single corpus reaction applied backwards) is excluded by reaction id.",
+        technique="round-trip property testing over corpus reactions and generated representation variants",
+    ),
+    "C05": dict(
+        text="Metamorphic testing: the set of distinct results (own RDKit keys) must be identical for the base input, a generated atom-map permutation of the template, a generated rewriting of the substrate SMILES and a repeated call, under all three strategies, with comp subset of all and bt == comp-or-all. Every comparison is evaluated with the reactor as is and with all raw matches injected; only differences that vanish with raw matches are attributed to the recorded pruning finding.",
+        note="Reactor mode matched to the template's hydrogen style; representation changes are verified in the generator to leave the chemistry unchanged.",
+        technique="metamorphic property testing (representation changes, strategy lattice) with attribution by differential re-run",
+    ),
 }
 NOT_APPLICABLE = {}
